@@ -77,7 +77,11 @@ func Main(prop, tier string, only int) int {
 		fmt.Println("INFRA vsched self-tests failed")
 		return 2
 	}
-	if b, err := os.ReadFile(os.Getenv("VERIF_BUILD") + "/gen-vs.inventory.json"); err == nil {
+	inv := "/gen-vs.inventory.json"
+	if prop == "C17R" {
+		inv = "/gen-vsr.inventory.json"
+	}
+	if b, err := os.ReadFile(os.Getenv("VERIF_BUILD") + inv); err == nil {
 		_ = json.Unmarshal(b, &rep.Inventory)
 	}
 	dl := 100 * time.Second
@@ -99,6 +103,17 @@ func Main(prop, tier string, only int) int {
 		for _, sc := range c17Scenarios(tier) {
 			jobs = append(jobs, job{"C17(" + sc.P.String() + ")", vsched.Config{Bound: sc.Bound, FireBudget: sc.P.Fire, MaxExec: sc.Max, Deadline: dl, StateKeys: true,
 				Body: c17Body(sc.P), Check: c17Check}})
+		}
+	case "C17R":
+		// the same kind of scenarios with the happens-before race oracle on (vsr flavour: access reports inserted
+		// by the rewriter); no state-key pruning: a race depends on the history, not only on the state reached
+		for _, sc := range c17RaceScenarios(tier) {
+			jobs = append(jobs, job{"C17R(" + sc.P.String() + ")", vsched.Config{Bound: sc.Bound, FireBudget: sc.P.Fire, Deadline: dl, Races: true, StateKeys: sc.Keys,
+				Body: c17Body(sc.P), Check: c17Check}})
+		}
+		for _, sc := range c15Scenarios("quick") {
+			jobs = append(jobs, job{"C17R-perio(" + sc.P.String() + ")", vsched.Config{Bound: 2, TickBudget: sc.P.Ticks, Deadline: dl, Races: true, StateKeys: true,
+				Body: c15Body(sc.P), Check: c15Check}})
 		}
 	case "C15":
 		for _, sc := range c15Scenarios(tier) {
